@@ -21,14 +21,19 @@ class LoggingRandom:
 
     def choice(self, seq):
         seq = list(seq)
-        self.log.append(("choice", seq, None))
-        return self.rng.choice(seq)
+        entry = ["choice", seq, None, None]
+        self.log.append(entry)
+        entry[3] = self.rng.choice(seq)
+        return entry[3]
 
     def choices(self, population, weights=None, k=1):
         pop = list(population)
         w = [float(x) for x in weights] if weights is not None else None
-        self.log.append(("choices", pop, w))
-        return self.rng.choices(pop, weights=weights, k=k)
+        entry = ["choices", pop, w, None]
+        self.log.append(entry)
+        res = self.rng.choices(pop, weights=weights, k=k)
+        entry[3] = res[0]
+        return res
 
     def __getattr__(self, name):
         return getattr(self.rng, name)
@@ -59,7 +64,8 @@ def run_sampler(cfg, seed, target, lr=None):
             masses = dict(s.fragment_masses)
             mol = s.sample(target, start_fragment=cfg.get("start_fragment"))
     except Exception as exc:
-        return {"outcome": project.outcome_of(exc), "msg": str(exc)[:120]}
+        return {"outcome": project.outcome_of(exc), "msg": str(exc)[:120], "log": list(lr.log) if lr is not None else None,
+                "masses": locals().get("masses")}
     return {"outcome": "ok", "mol": mol, "masses": masses, "log": list(lr.log) if lr is not None else None}
 
 
@@ -72,10 +78,53 @@ def triples(lst):
     return [parse_desc(x) for x in lst]
 
 
+def dead_end_record(cfg, seed, target, res):
+    """A run that raised: the growth events are reconstructed from the RNG log alone (every complete step logged four
+    draws with their results; node keys are merge offsets) and the draws of the failing step say where it failed."""
+    log = res.get("log")
+    if log is None or res.get("masses") is None:
+        return None
+    frags = frag_tokens(cfg)
+    names = [f[0] for f in frags]
+    natoms = [sum(1 for t in f[1] if t["k"] == "A") for f in frags]
+    calls = [x for x in log if x[0] != "seed"]
+    if cfg.get("start_fragment"):
+        start = names.index(cfg["start_fragment"]) + 1
+    else:
+        if not calls or calls[0][3] is None:
+            return None
+        start = names.index(calls[0][3]) + 1
+        calls = calls[1:]
+    copies = [start]
+    offsets = [0]
+    events = []
+    i = 0
+    while i + 4 <= len(calls) and all(c[3] is not None for c in calls[i:i + 4]):
+        d, node, p, (fname, tnode) = calls[i][3], calls[i + 1][3], calls[i + 2][3], calls[i + 3][3]
+        c = max(k for k in range(len(offsets)) if offsets[k] <= node)
+        events.append({"site": [c + 1, node - offsets[c] + 1], "d": parse_desc(d), "p": parse_desc(p),
+                       "f": names.index(fname) + 1, "t": tnode + 1})
+        offsets.append(offsets[-1] + natoms[copies[-1] - 1])
+        copies.append(names.index(fname) + 1)
+        i += 4
+    rest = calls[i:]
+    done = [c for c in rest if c[3] is not None]
+    K = {"frags": frags, "coarse": not cfg["all_atom"],
+         "masses": [int(round(float(res["masses"][n]) * 1000)) for n in names],
+         "react": [[parse_desc(k), float(v) > 0] for k, v in cfg["react"].items()],
+         "cond": [[parse_desc(k), parse_desc(k2), float(v2) > 0] for k, v in cfg["cond"].items() for k2, v2 in v.items()],
+         "terminal": [parse_desc(x) for x in cfg["terminal"]], "target": int(round(target * 1000))}
+    return {"K": K, "start": start, "want_start": 0, "events": events, "final_open": [], "draws": [], "tree_ok": True,
+            "dead": {"outcome": res["outcome"], "completed_draws": len(done), "attempted_draws": len(rest),
+                     "d": parse_desc(done[0][3]) if done else ["", "", 0]},
+            "cfg": cfg["name"], "seed": seed, "target": target}
+
+
 def observe(cfg, seed, target, lr=None):
     """-> (sampler trace record, resolve-like record) or (None, reason)"""
     res = run_sampler(cfg, seed, target, lr)
     if res["outcome"] != "ok":
+        res["dead_record"] = dead_end_record(cfg, seed, target, res)
         return None, res
     mol = res["mol"]
     all_atom = cfg["all_atom"]
